@@ -248,9 +248,11 @@ class CountingCuckooFilter(CuckooFilter):
         # either move everything around or hit the maximum number of swaps
         idx = random.choice([idx_1, idx_2])
         prv_bin = CountingCuckooBin(fingerprint, count)
+        swaps = []  # (bucket, slot) of every kick, so that a failed insertion can be undone
         for _ in range(self.max_swaps):
             # select one element to be swapped out...
             swap_elm = random.randint(0, self.bucket_size - 1)
+            swaps.append((idx, swap_elm))
             swap_finger = self.buckets[idx][swap_elm]
             prv_bin, self.buckets[idx][swap_elm] = swap_finger, prv_bin
 
@@ -264,7 +266,10 @@ class CountingCuckooFilter(CuckooFilter):
                 self.__unique_elements += 1
                 return None
 
-        # if we got here we have an error... we might need to know what is left
+        # if we got here we have an error; put every kicked out bin back where it was so that
+        # nothing already stored is lost, which leaves the bin we were asked to insert
+        for idx, swap_elm in reversed(swaps):
+            prv_bin, self.buckets[idx][swap_elm] = self.buckets[idx][swap_elm], prv_bin
         return prv_bin
 
     def _check_if_present(self, idx_1: int, idx_2: int, fingerprint: int) -> Union[int, None]:
